@@ -321,6 +321,72 @@ def P14(m, R):
                     '; '.join(problems), construct=cons)
 
 
+    # every result of _split / splitlines is cut along the pieces str produced: no return is reached without the str call having been made
+    from ..cfg import CFG
+    for name, meths in (('_split', ('split', 'rsplit')), ('splitlines', ('splitlines',))):
+        f = m.fn('AnsiString.' + name)
+        cons = '%s returns the str pieces' % name
+        cfg = CFG(f.node, f.body)
+        txt = '%s.%s' % (f.self_name, m.roles.TEXT)
+
+        def has_call(nd):
+            holder = nd.stmt if nd.kind != 'test' else nd.test
+            if holder is None:
+                return False
+            if nd.kind in ('loop', 'test') and nd.test is not None:
+                holder = nd.test
+            for x in ast.walk(holder):
+                if isinstance(x, ast.Call) and isinstance(x.func, ast.Attribute) and x.func.attr in meths and norm(x.func.value) == txt:
+                    return True
+            return False
+        callers = [nd for nd in cfg.nodes if nd.kind in ('stmt', 'return', 'test', 'loop') and has_call(nd)]
+        if not callers:
+            R.undecided(f, f.node, 'no call of str.%s on the base text found' % '/'.join(meths), construct=cons)
+            continue
+        # returns reachable from the entry without passing a node that makes the call
+        seen, stack, bad = set(), [cfg.entry], None
+        while stack:
+            nd = stack.pop()
+            if nd.id in seen:
+                continue
+            seen.add(nd.id)
+            if nd in callers:
+                continue
+            if nd.kind == 'return' and nd.stmt is not None and nd.stmt.value is not None and const_val(nd.stmt.value, 0) is not None:
+                bad = nd
+                break
+            for _lab, nx in nd.succ:
+                stack.append(nx)
+        if bad is None:
+            R.ok(f, f.node, 'every return comes after str.%s was applied to the base text' % '/'.join(meths), construct=cons)
+            continue
+        # a witness needs the arguments: decided for the scenario (sep=None, maxsplit=0), where str.split strips leading blanks and gives [] for a blank text
+        from ..finite import eval_guard as _eg
+        conds = []
+        child, par = bad.stmt, getattr(bad.stmt, '_parent', None)
+        while par is not None and par is not f.node:
+            if isinstance(par, ast.If):
+                conds.append((par.test, any(child is b_ for b_ in par.body)))
+            child, par = par, getattr(par, '_parent', None)
+        ps = f.own_params()
+        sepn = ps[0] if ps else 'sep'
+        mxn = ps[1] if len(ps) > 1 else 'maxsplit'
+
+        def val(a_):
+            t_ = norm(a_)
+            return {'%s == 0' % mxn: True, '%s != 0' % mxn: False, '%s is None' % sepn: True, '%s is not None' % sepn: False, mxn: False, sepn: False,
+                    '%s < 0' % mxn: False, '%s > 0' % mxn: False, '%s <= 0' % mxn: True, '%s >= 0' % mxn: True}.get(t_)
+        vs = [(_eg(t_, val) if pol else (None if _eg(t_, val) is None else not _eg(t_, val))) for t_, pol in conds]
+        rv = bad.stmt.value
+        whole = isinstance(rv, ast.List) and len(rv.elts) == 1 and (norm(rv.elts[0]) in (f.self_name, '%s.copy()' % f.self_name))
+        if name == '_split' and conds and all(v is True for v in vs) and whole:
+            R.viol(f, bad.stmt, 'L%d returns %s without str.%s having been applied, also for sep=None, maxsplit=0: str.split(None, 0) strips leading blanks and returns [] '
+                                'for a blank text -- "  a b".split(None, 0) is ["a b"], "".split(None, 0) is []' % (bad.line, short(rv), '/'.join(meths)), construct=cons)
+        else:
+            R.undecided(f, bad.stmt, 'L%d returns %s without str.%s having been applied to the base text; whether that agrees with str for the arguments that reach it is not decided'
+                        % (bad.line, short(rv), '/'.join(meths)), construct=cons)
+
+
 # ----------------------------------------------------------------------------------------------------------------------
 @rule('P13', 'order-preserving: an accumulator that is re-inserted into a START list is filled in list order', floor=1)
 def P13(m, R):
@@ -440,6 +506,29 @@ def P16(m, R):
                         construct=cons, witness=_path_text(p))
             else:
                 R.undecided(f, last.stmt, 'memo %r vs returned %s' % (memo_v, norm(rv)), construct=cons)
+        # the memo belongs to this property: nothing else stores it (a foreign store is what this property returns from then on)
+        C_ = m.cls('AnsiSetting')
+        foreign = []
+        for g in C_.methods.values():
+            if g is f or g.name == pname:
+                continue
+            for n in g.walk():
+                tg = n.targets if isinstance(n, ast.Assign) else [n.target] if isinstance(n, (ast.AugAssign, ast.AnnAssign)) else []
+                for t_ in tg:
+                    if isinstance(t_, ast.Attribute) and t_.attr == memo and isinstance(t_.value, ast.Name):
+                        foreign.append((g, n))
+                if isinstance(n, ast.Call) and call_name(n) == 'setattr' and len(n.args) == 3 and const_val(n.args[1], None) == memo:
+                    foreign.append((g, n))
+        if not foreign:
+            R.ok(f, f.node, 'only %s stores its memo %s' % (pname, memo), construct='%s memo owner' % pname)
+        else:
+            g, n = foreign[0]
+            v_ = getattr(n, 'value', None)
+            if v_ is not None and isinstance(const_val(v_, None), bool):
+                R.viol(g, n, '%s stores self.%s = %r: %s returns its memo when it is set, so once %s has run, %s is %r for every setting whatever its text' % (
+                    g.qual, memo, const_val(v_), pname, g.name, pname, const_val(v_)), construct='%s memo owner' % pname)
+            else:
+                R.undecided(g, n, '%s stores the memo %s of %s' % (g.qual, memo, pname), construct='%s memo owner' % pname)
 
 
 # ----------------------------------------------------------------------------------------------------------------------
